@@ -231,6 +231,18 @@ class shard_env:
         return False
 
 
+def with_array_forms(shards, tier, pick):
+    """Copies of the picked shards that hand the library another FORM of the same arrays (mc/values.np_array):
+    quick - a read-only strided view; thorough - also a plain read-only array and a negative-stride view."""
+    forms = ["strided"] if tier == "quick" else ["strided", "readonly", "reversed"]
+    extra = []
+    for sh in shards:
+        if "__env__" not in sh and pick(sh):
+            for form in forms:
+                extra.append(dict(sh, __env__={"MC_ARRAY_FORM": form}))
+    return shards + extra
+
+
 def load_check(check_id):
     if VERIF not in sys.path:
         sys.path.insert(0, VERIF)
